@@ -18,7 +18,8 @@ closures, no context store).
   a binding of a plain set is evaluated in the environment of the set, of a `rec` set in that
   environment extended by the set's own frame.
 * Reference chains are followed while the value of the designated binding is itself an identifier;
-  re-entering an item that is being evaluated is a cycle.
+  re-entering an item that is being evaluated is a cycle (`vis`: bindings and formal defaults
+  entered, `ivis`: inherit clauses entered).
 
 Which set `source[k]` indexes (`_resolve_target_set`: through `with`, parentheses, lambdas, to the
 ARGUMENT of a call) is API behaviour, not scoping; `specTarget` follows the same route but computes
@@ -86,13 +87,18 @@ def specName (n : Text) : Text :=
     | _ => n
   | _ => n
 
-/-- first item of a binding list that defines attribute / variable `name` -/
-def findItem (name : Text) : List Item → Option Item
+/-- first binding of a list whose (decoded) name is `name` -/
+def findBindS (name : Text) : List Item → Option Item
   | [] => none
-  | .bind id n v :: rest => if specName n = name then some (.bind id n v) else findItem name rest
-  | .inh id ns :: rest => if ns.contains name then some (.inh id ns) else findItem name rest
-  | .inhFrom id ns s :: rest =>
-    if ns.contains name then some (.inhFrom id ns s) else findItem name rest
+  | .bind id n v :: rest => if specName n = name then some (.bind id n v) else findBindS name rest
+  | _ :: rest => findBindS name rest
+
+/-- the item of a binding list that defines attribute / variable `name`: a binding, else an inherit
+    clause naming it (Nix rejects a list that has both, so the order between them is immaterial) -/
+def findItem (name : Text) (items : List Item) : Option Item :=
+  match findBindS name items with
+  | some it => some it
+  | none => findInherit name items
 
 def findFormal (name : Text) : List Formal → Option Formal
   | [] => none
@@ -130,82 +136,83 @@ def findWith : Env → Option (Expr × Env)
 mutual
 /-- the value (as a closure) of the binding that `name` designates in `E`; the second component is
     the evaluation stack (items entered) -/
-def lookupS : Nat → Env → Text → List Nat → SR (Clo × List Nat)
-  | 0, _, _, _ => .fail .fuel
-  | f + 1, E, name, vis =>
+def lookupS : Nat → Env → Text → List Nat → List Nat → SR (Clo × List Nat × List Nat)
+  | 0, _, _, _, _ => .fail .fuel
+  | f + 1, E, name, vis, ivis =>
     match findLex name E with
-    | some (.item it inner outer) => itemValueS f it inner outer name vis
+    | some (.item it inner outer) => itemValueS f it inner outer name vis ivis
     | some (.formalOpt d inner) =>
       if vis.contains (dfltBindId (nodeId d)) then .fail .cycle
-      else .ok (⟨d, inner⟩, dfltBindId (nodeId d) :: vis)
+      else .ok (⟨d, inner⟩, dfltBindId (nodeId d) :: vis, ivis)
     | some .formalReq => .fail .noValue
-    | none => withPassS f E name vis
+    | none => withPassS f E name vis ivis
 
 /-- the value an item gives to `name`; `inner` = where its right-hand side is evaluated,
     `outer` = the scope enclosing the construct the item belongs to -/
-def itemValueS : Nat → Item → Env → Env → Text → List Nat → SR (Clo × List Nat)
-  | 0, _, _, _, _, _ => .fail .fuel
-  | f + 1, it, inner, outer, name, vis =>
-    if vis.contains (itemId it) then .fail .cycle
-    else
-      let vis' := itemId it :: vis
-      match it with
-      | .bind _ _ v => .ok (⟨v, inner⟩, vis')
-      | .inh _ _ => lookupS f outer name vis'
-      | .inhFrom _ _ src =>
-        match evalToSetS f ⟨src, inner⟩ vis' with
+def itemValueS : Nat → Item → Env → Env → Text → List Nat → List Nat → SR (Clo × List Nat × List Nat)
+  | 0, _, _, _, _, _, _ => .fail .fuel
+  | f + 1, it, inner, outer, name, vis, ivis =>
+    match it with
+    | .bind id _ v =>
+      if vis.contains id then .fail .cycle else .ok (⟨v, inner⟩, id :: vis, ivis)
+    | .inh id _ =>
+      if ivis.contains id then .fail .cycle else lookupS f outer name vis (id :: ivis)
+    | .inhFrom id _ src =>
+      if ivis.contains id then .fail .cycle
+      else
+        match evalToSetS f ⟨src, inner⟩ vis (id :: ivis) with
         | .fail k => .fail k
-        | .ok sc => selectS f sc name vis'
+        | .ok sc => selectS f sc name vis (id :: ivis)
 
 /-- evaluate a closure to an attribute set (set literal reached through identifiers, parentheses,
     `with` bodies); function application is outside the fragment -/
-def evalToSetS : Nat → Clo → List Nat → SR SetClo
-  | 0, _, _ => .fail .fuel
-  | f + 1, c, vis =>
+def evalToSetS : Nat → Clo → List Nat → List Nat → SR SetClo
+  | 0, _, _, _ => .fail .fuel
+  | f + 1, c, vis, ivis =>
     match c.e.core with
     | .set _ r items => .ok ⟨r, items, c.inner⟩
-    | .paren _ i => evalToSetS f ⟨i, c.inner⟩ vis
-    | .withE _ envE body => evalToSetS f ⟨body, .withF envE :: c.inner⟩ vis
+    | .paren _ i => evalToSetS f ⟨i, c.inner⟩ vis ivis
+    | .withE _ envE body => evalToSetS f ⟨body, .withF envE :: c.inner⟩ vis ivis
     | .ref _ n =>
-      match lookupS f c.inner n vis with
+      match lookupS f c.inner n vis ivis with
       | .fail k => .fail k
-      | .ok (c2, vis2) => evalToSetS f c2 vis2
+      | .ok (c2, vis2, ivis2) => evalToSetS f c2 vis2 ivis2
     | _ => .fail .notASet
 
 /-- attribute `name` of a set -/
-def selectS : Nat → SetClo → Text → List Nat → SR (Clo × List Nat)
-  | 0, _, _, _ => .fail .fuel
-  | f + 1, sc, name, vis =>
+def selectS : Nat → SetClo → Text → List Nat → List Nat → SR (Clo × List Nat × List Nat)
+  | 0, _, _, _, _ => .fail .fuel
+  | f + 1, sc, name, vis, ivis =>
     match findItem name sc.items with
     | none => .fail .missingAttr
-    | some it => itemValueS f it sc.inner sc.env name vis
+    | some it => itemValueS f it sc.inner sc.env name vis ivis
 
 /-- no lexical binder: the `with` environments, innermost first -/
-def withPassS : Nat → Env → Text → List Nat → SR (Clo × List Nat)
-  | 0, _, _, _ => .fail .fuel
-  | f + 1, E, name, vis =>
+def withPassS : Nat → Env → Text → List Nat → List Nat → SR (Clo × List Nat × List Nat)
+  | 0, _, _, _, _ => .fail .fuel
+  | f + 1, E, name, vis, ivis =>
     match findWith E with
     | none => .fail .unbound
     | some (envE, outer) =>
-      match evalToSetS f ⟨envE, outer⟩ vis with
+      match evalToSetS f ⟨envE, outer⟩ vis ivis with
       | .fail k => .fail k
       | .ok sc =>
         match findItem name sc.items with
-        | some _ => selectS f sc name vis
-        | none => withPassS f outer name vis
+        | some _ => selectS f sc name vis ivis
+        | none => withPassS f outer name vis ivis
 end
 
 /-- follow a reference chain: the first value that is not an identifier (with the evaluation
     stack at that point) -/
-def resolveCloS : Nat → Clo → List Nat → SR (Clo × List Nat)
-  | 0, _, _ => .fail .fuel
-  | f + 1, c, vis =>
+def resolveCloS : Nat → Clo → List Nat → List Nat → SR (Clo × List Nat × List Nat)
+  | 0, _, _, _ => .fail .fuel
+  | f + 1, c, vis, ivis =>
     match c.e.core with
     | .ref _ n =>
-      match lookupS (f + 1) c.inner n vis with
+      match lookupS (f + 1) c.inner n vis ivis with
       | .fail k => .fail k
-      | .ok (c2, vis2) => resolveCloS f c2 vis2
-    | _ => .ok (c, vis)
+      | .ok (c2, vis2, ivis2) => resolveCloS f c2 vis2 ivis2
+    | _ => .ok (c, vis, ivis)
 
 /-! ## Navigation (API route, lexical environments) -/
 
@@ -215,16 +222,16 @@ inductive SNav (α : Type) where
   | nav (f : Fail)
 
 /-- the argument handling of `_resolve_target_set` -/
-def targetFromArgS : Nat → Clo → List Nat → SNav (Option SetClo)
-  | 0, _, _ => .error .fuel
-  | f + 1, c, vis =>
+def targetFromArgS : Nat → Clo → List Nat → List Nat → SNav (Option SetClo)
+  | 0, _, _, _ => .error .fuel
+  | f + 1, c, vis, ivis =>
     match c.e.core with
-    | .paren _ i => targetFromArgS f ⟨i, c.inner⟩ vis
+    | .paren _ i => targetFromArgS f ⟨i, c.inner⟩ vis ivis
     | .set _ r items => .ok (some ⟨r, items, c.inner⟩)
     | .ref .. =>
-      match resolveCloS (f + 1) c vis with
+      match resolveCloS (f + 1) c vis ivis with
       | .fail k => .error k
-      | .ok (c2, _) =>
+      | .ok (c2, _, _) =>
         match c2.e.core with
         | .set _ r items => .ok (some ⟨r, items, c2.inner⟩)
         | _ => .ok none
@@ -232,42 +239,42 @@ def targetFromArgS : Nat → Clo → List Nat → SNav (Option SetClo)
 
 /-- the set `source[...]` indexes. `vis` is the evaluation stack: finding the set forces the
     document's value, so an identifier met again on the way is a cycle. -/
-def specTarget : Nat → Clo → List Nat → SNav SetClo
-  | 0, _, _ => .error .fuel
-  | f + 1, c, vis =>
+def specTarget : Nat → Clo → List Nat → List Nat → SNav SetClo
+  | 0, _, _, _ => .error .fuel
+  | f + 1, c, vis, ivis =>
     match c.e.core with
     | .set _ r items => .ok ⟨r, items, c.inner⟩
-    | .paren _ i => specTarget f ⟨i, c.inner⟩ vis
-    | .withE _ envE body => specTarget f ⟨body, .withF envE :: c.inner⟩ vis
+    | .paren _ i => specTarget f ⟨i, c.inner⟩ vis ivis
+    | .withE _ envE body => specTarget f ⟨body, .withF envE :: c.inner⟩ vis ivis
     | .ref .. =>
-      match resolveCloS (f + 1) c vis with
+      match resolveCloS (f + 1) c vis ivis with
       | .fail k => .error k
-      | .ok (c2, vis2) =>
+      | .ok (c2, vis2, ivis2) =>
         match c2.e.core with
         | .ref .. => .error .fuel
-        | _ => specTarget f c2 vis2
+        | _ => specTarget f c2 vis2 ivis2
     | .lam1 _ p body =>
       let Eb : Env := .lam1F p :: c.inner
       match body.core with
       | .app _ _ arg =>
-        match targetFromArgS (f + 1) ⟨arg, pushLets Eb body.layers⟩ vis with
+        match targetFromArgS (f + 1) ⟨arg, pushLets Eb body.layers⟩ vis ivis with
         | .ok (some sc) => .ok sc
-        | .ok none => specTarget f ⟨body, Eb⟩ vis
+        | .ok none => specTarget f ⟨body, Eb⟩ vis ivis
         | .error k => .error k
         | .nav x => .nav x
-      | _ => specTarget f ⟨body, Eb⟩ vis
+      | _ => specTarget f ⟨body, Eb⟩ vis ivis
     | .lamP _ fs body =>
       let Eb : Env := .lamF fs :: c.inner
       match body.core with
       | .app _ _ arg =>
-        match targetFromArgS (f + 1) ⟨arg, pushLets Eb body.layers⟩ vis with
+        match targetFromArgS (f + 1) ⟨arg, pushLets Eb body.layers⟩ vis ivis with
         | .ok (some sc) => .ok sc
-        | .ok none => specTarget f ⟨body, Eb⟩ vis
+        | .ok none => specTarget f ⟨body, Eb⟩ vis ivis
         | .error k => .error k
         | .nav x => .nav x
-      | _ => specTarget f ⟨body, Eb⟩ vis
+      | _ => specTarget f ⟨body, Eb⟩ vis ivis
     | .app _ _ arg =>
-      match targetFromArgS (f + 1) ⟨arg, c.inner⟩ vis with
+      match targetFromArgS (f + 1) ⟨arg, c.inner⟩ vis ivis with
       | .ok (some sc) => .ok sc
       | .ok none => .nav .value
       | .error k => .error k
@@ -309,22 +316,22 @@ def derefS (fuel : Nat) : SCur → SNav Clo
   | .at c =>
     match c.e.core with
     | .ref .. =>
-      match resolveCloS fuel c [] with
-      | .ok (c2, _) => .ok c2
+      match resolveCloS fuel c [] [] with
+      | .ok (c2, _, _) => .ok c2
       | .fail k => .error k
     | _ => .nav .notIdent
   | .atInh it inner outer name _ =>
-    match itemValueS fuel it inner outer name [] with
+    match itemValueS fuel it inner outer name [] [] with
     | .fail k => .error k
-    | .ok (c, vis) =>
-      match resolveCloS fuel c vis with
-      | .ok (c2, _) => .ok c2
+    | .ok (c, vis, ivis) =>
+      match resolveCloS fuel c vis ivis with
+      | .ok (c2, _, _) => .ok c2
       | .fail k => .error k
 
 def specStep (fuel : Nat) (prog : Expr) (cur : SCur) (s : Step) : SNav SCur :=
   match cur, s with
   | .root, .key key =>
-    match specTarget fuel ⟨prog, []⟩ [] with
+    match specTarget fuel ⟨prog, []⟩ [] [] with
     | .ok sc => keyInSet sc key
     | .error k => .error k
     | .nav f => .nav f
